@@ -7,7 +7,7 @@ import os
 import sys
 import traceback
 
-from .core import Machinery, seed_from_env
+from .core import Machinery, seed_from_env, CodeHangFound, REPLAYS
 from .tlc import TLCError
 
 
@@ -25,6 +25,15 @@ def main(argv=None) -> int:
         return 2
     try:
         return mod.run(a.tier, seed_from_env(), a.replay)
+    except CodeHangFound as e:
+        import json
+        d = REPLAYS / a.prop
+        d.mkdir(parents=True, exist_ok=True)
+        p = d / "hang.json"
+        p.write_text(json.dumps({"property": a.prop, "clause": "code-under-test-does-not-return",
+                                 "case": {"hang": True}, "items": [repr(x)[:2000] for x in e.items[:5]]}, indent=1))
+        print(f"VIOLATION property={a.prop} replay={p}  clause=code-under-test-does-not-return ({e})")
+        return 1
     except (Machinery, TLCError) as e:
         print(f"MACHINERY property={a.prop}: {e}")
         return 2
